@@ -161,12 +161,17 @@ func c08Exec(c c08Case, st *lab.Stats) *lab.Fail {
 			}
 		}
 	}
+	// both servers are stopped at the same time: stopping them one after the other would make
+	// the second server's connections wait for however long the first one's clients need
 	stopAll := func() {
+		var swg sync.WaitGroup
 		for _, s := range []*lab.Server{plainSrv, tlsSrv} {
 			if s != nil {
-				_ = s.Stop(15 * time.Second)
+				swg.Add(1)
+				go func(s *lab.Server) { defer swg.Done(); _ = s.Stop(30 * time.Second) }(s)
 			}
 		}
+		swg.Wait()
 	}
 	baseFD := socketFDs()
 	clients := make([]*lab.Client, len(c.Conns))
@@ -292,7 +297,7 @@ func c08Exec(c c08Case, st *lab.Stats) *lab.Fail {
 				mu.Lock()
 				myID, known := connIDOfTag[tag]
 				mu.Unlock()
-				deadline := time.Now().Add(6 * time.Second)
+				deadline := time.Now().Add(10 * time.Second)
 				finished := false
 				for known && !finished && time.Now().Before(deadline) {
 					for _, e := range log.snapshot() {
@@ -391,7 +396,7 @@ collect:
 	mu.Unlock()
 	if len(stalled) > 0 {
 		tag := stalled[0]
-		return lab.Failf("stalled-connection-not-closed-at-stop", "connection %d (%s): its read loop had ended (Unbind), %d handlers were parked writing to a client that reads nothing, Stop was called - and 6 s later the server still had not closed the connection / called OnClose (it only did once the client went away)", tag, c.Conns[tag].Transport, c.Conns[tag].K)
+		return lab.Failf("stalled-connection-not-closed-at-stop", "connection %d (%s): its read loop had ended (Unbind), %d handlers were parked writing to a client that reads nothing, Stop was called - and 10 s later the server still had not closed the connection / called OnClose (it only did once the client went away)", tag, c.Conns[tag].Transport, c.Conns[tag].K)
 	}
 	evs := log.snapshot()
 	mu.Lock()
